@@ -48,6 +48,7 @@ def run(ctx):
     ctx.rule('C06.3', 'segyio.spec receives the reader axes of the same axis; 2D takes the tracecount branch')
     ctx.rule('C06.4', 'traces and headers are written in the same ordinal order, index unchanged')
     ctx.rule('C06.5', 'DelayRecordingTime is regenerated from the first sample coordinate')
+    ctx.rule('C06.6', 'the stored SEG-Y file header is written back verbatim: only the format-code fallback may patch it')
     ht = HR.HeaderTable(P, G)
     bf = binfields()
     by_off = {v - 1: k for k, v in bf.items()}
@@ -117,6 +118,7 @@ def run(ctx):
     spec_handover_c06(ctx)
     trace_order(ctx)
     delay(ctx)
+    verbatim(ctx, text_lo, by_off)
 
 
 def header_last(ctx, ht, lo, hi):
@@ -208,17 +210,88 @@ def trace_order(ctx):
         ctx.fail('C06.4', f, comps['segyfile.header'][0], 'traces and headers iterate different ranges: %s' % sorted(iters))
 
 
+def _strip_int(e):
+    """peel int(..) / round(..) / np.round(..) / np.rint(..) wrappers -> (inner expression, wrappers)"""
+    wr = []
+    while isinstance(e, ast.Call) and len(e.args) >= 1 and U(e.func).split('.')[-1] in ('int', 'round', 'rint', 'round_', 'around', 'int32', 'int64'):
+        wr.append(U(e.func).split('.')[-1])
+        e = e.args[0]
+    return e, wr
+
+
 def delay(ctx):
     P = ctx.P
     f = P.func('conversion.SgzConverter.regenerate_trace_header')
     st = [a for a in ast.walk(f.node) if isinstance(a, ast.Assign) and 'DelayRecordingTime' in U(a.targets[0])]
-    if st and 'self.zslices[0]' in U(st[0].value):
-        ctx.ok('C06.5', f, st[0], 'DelayRecordingTime <- zslices[0]')
+    if not st:
+        ctx.fail('C06.5', f, f.name, 'DelayRecordingTime is not regenerated from the first sample coordinate')
     else:
-        ctx.fail('C06.5', f, st[0] if st else f.name, 'DelayRecordingTime is not regenerated from the first sample coordinate')
+        inner, wr = _strip_int(st[0].value)
+        if U(inner) == 'self.zslices[0]':
+            ctx.ok('C06.5', f, st[0], 'DelayRecordingTime <- zslices[0] (whole milliseconds; %s)' % ('/'.join(wr) or 'as is'))
+        elif isinstance(inner, ast.BinOp) and isinstance(inner.op, (ast.Add, ast.Sub)) and 'int' in wr and \
+                'round' not in wr and 'rint' not in wr and \
+                any(U(x) == 'self.zslices[0]' for x in (inner.left, inner.right)) and \
+                any(isinstance(x, ast.Constant) for x in (inner.left, inner.right)):
+            ctx.fail('C06.5', f, st[0], 'DelayRecordingTime is int(`%s`): int() truncates toward zero, so shifting the value before '
+                     'truncation is not rounding - a negative first-sample time comes out 1 ms late in every exported trace '
+                     'header (and the re-opened sample axis shifts with it)' % U(inner))
+        elif 'self.zslices[0]' in U(st[0].value):
+            raise AnalysisError('regenerate_trace_header: DelayRecordingTime expression `%s` follows no recognised idiom' % U(st[0].value)[:60])
+        else:
+            ctx.fail('C06.5', f, st[0], 'DelayRecordingTime is not regenerated from the first sample coordinate')
     base = [a for a in ast.walk(f.node) if isinstance(a, ast.Assign) and isinstance(a.value, ast.Call) and
             'gen_trace_header' in U(a.value.func)]
     if base and U(base[0].value.args[0]) == f.params[1]:
         ctx.ok('C06.5', f, base[0], 'header i is regenerated from stored header i')
     else:
         ctx.fail('C06.5', f, f.name, 'regenerate_trace_header does not start from gen_trace_header(i)')
+
+
+def verbatim(ctx, text_lo, by_off):
+    """C06.6: on the export path the bytes written at offset 0 are self.headerbytes[4096:7696]; the only assignment to
+    self.headerbytes outside the constructor and the only element stores into a copy of it are the format-code
+    fallback, confined to the branch where the stored code is neither 1 nor 5."""
+    P, G = ctx.P, ctx.G
+    entry = P.func('conversion.SgzConverter.convert_to_segy')
+    funcs = [entry] + [P.functions[q] for q in G.reach(entry) if P.functions[q].module.name == 'conversion']
+    n = 0
+    for f in funcs:
+        fm = FactMap(f.node)
+        copies = set()
+        for a in ast.walk(f.node):
+            if isinstance(a, ast.Assign) and isinstance(a.value, ast.Call) and U(a.value.func) in ('bytearray', 'bytes') and \
+                    a.value.args and 'headerbytes' in U(a.value.args[0]) and isinstance(a.targets[0], ast.Name):
+                copies.add(a.targets[0].id)
+        for a in ast.walk(f.node):
+            if not isinstance(a, (ast.Assign, ast.AugAssign)):
+                continue
+            tgts = a.targets if isinstance(a, ast.Assign) else [a.target]
+            for t in tgts:
+                is_attr = U(t) == 'self.headerbytes'
+                is_elem = isinstance(t, ast.Subscript) and (U(t.value) in copies or U(t.value) == 'self.headerbytes')
+                if not (is_attr or is_elem):
+                    continue
+                n += 1
+                facts = fm.facts_at(a) or frozenset()
+                fallback = any(x[0] == 'F' and ('in [1, 5]' in x[1] or 'in (1, 5)' in x[1]) for x in facts) or \
+                    any(x[0] == 'notin' and '[1, 5]' in str(x) for x in facts)
+                if is_elem:
+                    sl = t.slice
+                    lo = TB.const_eval(P, f.module, sl.lower) if isinstance(sl, ast.Slice) and sl.lower is not None else None
+                    name = by_off.get(lo - text_lo) if lo is not None else None
+                    if name == 'Format' and fallback:
+                        ctx.ok('C06.6', f, a, 'only BinField.Format is patched, and only when the stored code is not 1 or 5')
+                    else:
+                        ctx.fail('C06.6', f, a, 'the export path patches %s of the stored file header%s: the exported binary header is '
+                                 'no longer byte-identical to the source\'s' % (
+                                     'BinField.%s' % name if name else '`%s`' % U(t)[:50],
+                                     '' if fallback else ' outside the format-code fallback'), line=a.lineno)
+                else:
+                    if fallback:
+                        ctx.ok('C06.6', f, a, 'self.headerbytes is replaced only inside the format-code fallback')
+                    else:
+                        ctx.fail('C06.6', f, a, 'self.headerbytes is replaced on the export path outside the format-code fallback: '
+                                 'the bytes written back are not the stored file header', line=a.lineno)
+    if n < 2:
+        raise AnalysisError('export path: the format-code fallback (copy, patch, re-assign) was not found')
